@@ -134,3 +134,53 @@ Lemma hoare_run {A} (P : fsT -> Prop) (m : M A) (Q : A -> fsT -> Prop) (E : fsT 
   hoare P m Q E -> P (fs_of s) ->
   match m s with (Ret a, s') => Q a (fs_of s') | (_, s') => E (fs_of s') end.
 Proof. intros H Hs. apply (H s Hs). Qed.
+
+(* ------------------------------------------------------------------ invariant preservation *)
+Definition pres {A} (I E : fsT -> Prop) (m : M A) : Prop := hoare I m (fun _ => I) E.
+
+Section Pres.
+Variables I E : fsT -> Prop.
+Hypothesis HE : forall g, I g -> E g.
+
+Lemma p_ret {A} (a : A) : pres I E (ret a).
+Proof. apply h_ret. auto. Qed.
+Lemma p_fail {A} : pres I E (@fail A).
+Proof. apply h_fail. auto. Qed.
+Lemma p_diverge {A} : pres I E (@diverge A).
+Proof. apply h_diverge. auto. Qed.
+Lemma p_panic {A} : pres I E (@panic A).
+Proof. apply h_panic. auto. Qed.
+Lemma p_bind {A B} (m : M A) (f : A -> M B) : pres I E m -> (forall a, pres I E (f a)) -> pres I E (bind m f).
+Proof. intros Hm Hf. eapply h_bind; [exact Hm|]. exact Hf. Qed.
+Lemma p_guard b : pres I E (guard b).
+Proof. unfold guard. destruct b; [apply p_ret|apply p_fail]. Qed.
+Lemma p_get_fs : pres I E get_fs.
+Proof. intros s Hs. cbn. exact Hs. Qed.
+Lemma p_get_ks : pres I E get_ks.
+Proof. intros s Hs. cbn. exact Hs. Qed.
+Lemma p_put_ks k : pres I E (put_ks k).
+Proof. intros s Hs. cbn. exact Hs. Qed.
+Lemma p_mapM {A} (f : A -> M unit) (l : list A) : (forall x, In x l -> pres I E (f x)) -> pres I E (mapM_ f l).
+Proof. apply h_mapM. Qed.
+Lemma p_foldM {A} (f : ldefs -> A -> M ldefs) (l : list A) :
+  (forall ld x, In x l -> pres I E (f ld x)) -> forall ld, pres I E (foldM f l ld).
+Proof.
+  induction l as [|x r IH]; intros H ld; cbn [foldM]; [apply p_ret|].
+  apply p_bind; [apply H; now left|]. intros ld'. apply IH. intros ld0 y Hy. apply H. now right.
+Qed.
+(* a result-carrying triple is in particular invariant preservation *)
+Lemma p_of_hoare {A} (m : M A) (Q : A -> fsT -> Prop) :
+  hoare I m Q E -> (forall a g, Q a g -> I g) -> pres I E m.
+Proof. intros H HQ. eapply h_post; [exact H|]. exact HQ. Qed.
+End Pres.
+
+Ltac pres_step I E HE :=
+  first
+  [ apply (p_ret I E) | apply (p_fail I E HE) | apply (p_diverge I E HE) | apply (p_panic I E HE)
+  | apply (p_guard I E HE) | apply (p_get_fs I E) | apply (p_get_ks I E) | apply (p_put_ks I E)
+  | match goal with
+    | |- pres _ _ (if ?b then _ else _) => destruct b
+    | |- pres _ _ (match ?x with _ => _ end) => destruct x
+    | |- pres _ _ (let _ := _ in _) => cbv zeta
+    end
+  | apply (p_bind I E); [|intros ?] ].
